@@ -611,17 +611,22 @@ def t1(ctx, label, pre, post, total, small, configs, full_universe=False, strict
     if res.error:
         raise MachineryError("T1 %s: %s" % (label, res.error))
     if not res.violated:
-        # TLC reports coverage per disjunct of Next (source order: Pre, DoClone, Post)
+        # TLC reports coverage per disjunct of Next (by source line), or under the action's own name when
+        # it expands the quantifier of the disjunct
         import re
 
-        per = {}
-        for m in re.finditer(r"^<Next line \d+, col \d+ to line \d+, col \d+ of module MCModelClone \((\d+) (\d+) \d+ \d+\)>: \d+:(\d+)", res.stdout, re.M):
-            per[int(m.group(1))] = max(per.get(int(m.group(1)), 0), int(m.group(3)))  # (coverage is printed more than once)
-        dis = sorted(per.items())
-        taken = dict(zip(("Pre", "DoClone", "Post"), [n for _, n in dis]))
+        with open(os.path.join(tlc.SPEC_DIR, "MCModelClone.tla")) as fh:
+            lines = fh.read().split("\n")
+        first = next(i for i, ln in enumerate(lines) if ln.startswith("Next ==")) + 1
+        names = {first: "Pre", first + 1: "DoClone", first + 2: "Post"}
+        taken = {a: res.coverage.get(a, (0, 0))[1] for a in names.values()}
+        for m in re.finditer(r"^<Next line \d+, col \d+ to line \d+, col \d+ of module MCModelClone \((\d+) \d+ \d+ \d+\)>: \d+:(\d+)", res.stdout, re.M):
+            a = names.get(int(m.group(1)))
+            if a:
+                taken[a] = max(taken[a], int(m.group(2)))
         idle = [a for a in ("Pre", "DoClone", "Post") if not taken.get(a)]
-        if len(dis) != 3 or idle:
-            raise MachineryError("T1 %s is vacuous: actions never taken: %s (%r)" % (label, idle, dis))
+        if idle:
+            raise MachineryError("T1 %s is vacuous: actions never taken: %s (%r)" % (label, idle, taken))
         res.coverage.update({a: (0, n) for a, n in taken.items()})
     cex = {}
     for p in res.printed:
